@@ -283,6 +283,10 @@ class Client(BaseComponent):
 
     @handler('write')
     def write(self, data):
+        if not self._connected:
+            # late (or early) write to a connection that is not there: keep
+            # nothing that could leak into the next connection
+            return
         if not self._poller.isWriting(self._sock):
             self._poller.addWriter(self, self._sock)
         self._buffer.append(data)
